@@ -119,7 +119,7 @@ def stream_correspondence(ck, stats):
     exe = vlib.build_harness("c07_streamops", ["c07_streamops.c"])
     quick = ck.tier == "quick"
     nshards = 16
-    per = 250 if quick else 6000
+    per = 250 if quick else 20000
     td = tmpdir()
     shards = [(exe, ck.seed * 104729 + i, per, os.path.join(td, "s%d-%d.bin" % (os.getpid(), i)), 24 if i % 2 else 64)
               for i in range(nshards)]
@@ -481,7 +481,7 @@ def entrypoint_oracle(ck, gen, stats):
         b = open(src, "rb").read()
         if not b:
             continue
-        n_mut = (10 if pri == 0 else 5) if quick else (60 if pri == 0 else 24)
+        n_mut = (10 if pri == 0 else 5) if quick else (120 if pri == 0 else 50)
         for k, (label, trunc, edits) in enumerate(mutations(ck.rng, b, n_mut, pri == 0)):
             mid = "%s.m%d" % (cid, k)
             mut_cases.append((mid, src, trunc, edits))
@@ -521,11 +521,109 @@ def entrypoint_oracle(ck, gen, stats):
             ck.sample({"file": os.path.basename(c[1]), "mutation": label, "load": {e: " ".join(r["L"][e]["res"])[:60] for e in r["L"]}}, limit=6)
 
 
+# the witnesses of C07_D1..D6 / C07_F14_pattern (XmpProps/C07.lean), replayed on the REAL back-ends:
+# (bytes hex, policy "sp pt chunk", ops, expected value column per back-end)
+WITNESSES = [
+    ("D1", "01", "0 1 0", ["w 0", "w 1"], {"F": ["v 1", "v 0"], "M": ["v 1", "v -1"], "C": ["v 1", "v -1"]}),
+    ("D2", "0102", "0 1 0", ["seek 5 0", "tell"], {"F": ["v 0", "v 5"], "M": ["v 0", "v 2"], "C": ["v 0", "v 5"]}),
+    ("D2-clamp", "0102", "1 1 0", ["seek 5 0", "tell"], {"C": ["v 0", "v 2"]}),
+    ("D2-fail", "0102", "2 1 0", ["seek 5 0", "tell"], {"C": ["v -1", "v 0"]}),
+    ("D3", "0102", "0 1 0", ["seek 0 2", "eof"], {"F": ["v 0", "v 0"], "M": ["v 0", "v 1"], "C": ["v 0", "v 0"]}),
+    ("D3-read", "0102", "0 1 0", ["w 2", "eof"], {"F": ["v 513", "v 0"], "M": ["v 513", "v 1"]}),
+    ("D4", "0102", "0 1 0", ["read 0 3", "seek 0 0", "error"], {"F": ["d 0 - -", "v 0", "v 1"], "M": ["d 0 - -", "v 0", "v 0"], "C": ["d 0 - -", "v 0", "v 0"]}),
+    ("D5-read0", "01", "0 1 0", ["w 2", "read 1 0", "eof"], {"F": ["v 65535", "d 0 - -", "v 1"], "C": ["v 65535", "d 0 - -", "v 0"]}),
+    ("D5-seek", "01", "0 1 0", ["w 2", "seek -1 0", "eof"], {"F": ["v 65535", "v -1", "v 1"], "C": ["v 65535", "v -1", "v 0"]}),
+    ("D6", "010203", "0 0 0", ["read 2 2"], {"F": ["d 1 0102 03a5"], "M": ["d 1 0102 03a5"], "C": ["d 1 0102 a5a5"]}),
+    ("F14", "000000010900000007", "0 1 0", ["w 7", "w 6", "seek 9 1", "eof", "w 7"],
+     {"F": ["v 1", "v 9", "v 0", "v 0", "v 4294967295"], "M": ["v 1", "v 9", "v 0", "v 1", "v 4294967295"]}),
+]
+
+
+def witness_replay(ck, stats):
+    exe = vlib.build_harness("c07_streamops", ["c07_streamops.c"])
+    script = "".join("begin %s %s\n%send\n" % (b, pol, "".join("op %s\n" % o for o in ops)) for (_, b, pol, ops, _) in WITNESSES)
+    path = os.path.join(vlib.OUT, "c07-witnesses.txt")
+    open(path, "w").write(script)
+    tmp = os.path.join(tmpdir(), "wit-%d.bin" % os.getpid())
+    rc, out, err = vlib.run_exe(exe, ["--replay", path, tmp])
+    try:
+        os.unlink(tmp)
+    except OSError:
+        pass
+    cases = parse_stream_cases(out.decode("latin-1"))
+    if rc != 0 or len(cases) != len(WITNESSES):
+        ck.unproved("witness replay", "harness rc=%d, %d of %d witness scripts ran: %s" % (rc, len(cases), len(WITNESSES), err[-300:]))
+        return
+    for (name, b, pol, ops, exp), c in zip(WITNESSES, cases):
+        for be, vals in exp.items():
+            got = [o[be].partition(" | ")[0] for o in c["ops"]]
+            if got != vals:
+                # the proved divergence witness does not behave on the real back-end as in the theorem
+                ck.unproved("witness C07_%s on the real %s back-end" % (name, be), "expected %s, real %s" % (vals, got))
+            else:
+                stats["witnesses_confirmed_on_real_code"] += 1
+
+
+def core_correspondence(ck, stats):
+    """load.c wrappers + load_module/test_module over a recording loader vs the model's
+    Entry.pathInfo / Entry.backend / loadModule / testModule."""
+    exe = vlib.build_harness("c07_core", ["c07_core.c"])
+    n = 150 if ck.tier == "quick" else 3000
+    wd = os.path.join(tmpdir(), "core-%d" % os.getpid())
+    rc, out, err = vlib.run_exe(exe, [str(ck.seed), wd, str(n)], timeout=600)
+    import shutil
+    shutil.rmtree(wd, ignore_errors=True)
+    if rc != 0:
+        sig = vlib.sanitizer_signature(err)
+        ck.violation("core-abort:" + sig, {"cmd": ["c07_core", str(ck.seed), "<workdir>", str(n)], "stderr": err[-3000:]},
+                     "load.c core harness aborted: " + sig)
+        return
+    text = out.decode("latin-1")
+    blocks, cur = [], None
+    for line in text.splitlines():
+        if line.startswith("core "):
+            cur = [line]
+            blocks.append(cur)
+        elif cur is not None:
+            cur.append(line)
+    if not ck.lean_ok:
+        return
+    mlines = vlib.run_driver("drv_c07", "".join(b[0] + "\n" for b in blocks))
+    mi = 0
+    for b in blocks:
+        # the model prints exactly the lines the real run should have printed
+        real = b[1:]
+        k = 0
+        model = []
+        while len(model) < len(real) and mi + k < len(mlines):
+            model.append(mlines[mi + k])
+            k += 1
+            if model[-1].startswith("T 3 "):
+                break
+        mi += k
+        stats["core_cases"] += 1
+        stats["core_seen_lines"] += sum(1 for l in real if l.startswith("seen "))
+        # the real test type is "rec"; entry points must not matter (property on the real core)
+        lrc = {l.split()[1]: l.split()[2] for l in real if l.startswith("L ")}
+        seen = {l.split()[1]: l.split(" ", 2)[2] for l in real if l.startswith("seen ")}
+        if len(set(lrc.values())) > 1:
+            ck.violation("core:load-rc", {"kind": "core", "block": b},
+                         "the same bytes give different load codes over a loader that only uses hio_*: %s" % lrc)
+        if real != model:
+            d = [(r, m) for r, m in zip(real, model) if r != m][:2] or [(len(real), len(model))]
+            ck.unproved("correspondence Stream.loadEntry/testEntry/Entry.pathInfo vs load.c",
+                        "case `%s`: real/model differ: %s" % (b[0][:120], d))
+        else:
+            ck.cov["traces_validated_against_impl"] += 1
+        ck.count("core:" + b[0], nontrivial=len(seen) == 4)
+
+
 def run(ck):
     import gen_hio_users
     stats = {"ops": 0, "ops_in_fragment": 0, "s8_at_eof": 0, "cases_with_observed_divergence": 0,
              "entry_cases": 0, "entry_loaded": 0, "entry_disagreements": 0, "entry_aborts": 0, "containers": 0,
-             "unrecognised": 0, "entry_container_cases": 0, "entry_multifile_cases": 0}
+             "unrecognised": 0, "entry_container_cases": 0, "entry_multifile_cases": 0, "core_cases": 0, "core_seen_lines": 0,
+             "witnesses_confirmed_on_real_code": 0}
     gen = gen_hio_users.generate()
     ck.note("hio_users", ["%s:%s:%s" % (u["file"], u["func"], u["kind"]) for u in gen["hio_users"]])
     ck.note("divergence_map", {"eof_files": gen["eof_files"], "read8s_files": gen["read8s_files"],
@@ -542,7 +640,9 @@ def run(ck):
                         "; ".join("%s:%s %s" % e for e in errs[:2])))
     ck.proofs(["XmpProps.C07"] + (["XmpModel.Gen.HioUsers"] if ok_gen else []),
               required=REQUIRED + (gen_req if ok_gen else []), drivers=["drv_c07"])
+    witness_replay(ck, stats)
     stream_correspondence(ck, stats)
+    core_correspondence(ck, stats)
     entrypoint_oracle(ck, gen, stats)
     for k, v in sorted(stats.items()):
         ck.note(k, v)
